@@ -286,6 +286,21 @@ class Builder:
             return self.dop(s)
         if k == "structure":
             return self.structure(s)
+        if k == "envdatadesc":
+            from odxtools.environmentdata import EnvironmentData
+            from odxtools.environmentdatadescription import EnvironmentDataDescription
+            eds = []
+            for e in s["datas"]:
+                params = NamedItemList([self.param(p) for p in e["params"]])
+                ed = mk(EnvironmentData, odx_id=oid(self.fresh("envdata")), short_name=e["name"],
+                        parameters=params, byte_size=None, all_value=e.get("all"),
+                        dtc_values=list(e.get("dtcs", [])))
+                eds.append(ed)
+            d = mk(EnvironmentDataDescription, odx_id=oid(self.fresh("edd")),
+                   short_name=self.fresh("edd"), param_snref=s["param"], param_snpathref=None,
+                   env_datas=NamedItemList(eds), env_data_refs=[])
+            self.objs.append(d)
+            return d
         if k == "dtc":
             dct = diag_coded_type(s)
             it = dct.base_data_type
